@@ -265,4 +265,38 @@ theorem c08_spellings_equivalent (s : Repo) (hasDefault : Bool) (q : ReqView) (u
 
 example : [PU.esc '6' 'a', .lit 'b'].map normUnit = [PU.lit 'j', .esc '6' '2'].map normUnit := by decide
 
+/-! ## From the request line to the request view
+
+`extractURL` keeps the path as received and percent-encodes only the octets that may not stand in a path
+(`receivedPathL`, unit by unit `receivedUnit`).  The statements above are about a raw path given as units; these say
+that the raw path of the request view has the same encoded slashes and the same decoding as the request line, for
+every sequence of octets — so "`%2F` next to an octet Go does not accept" can neither slip past the check nor change
+what is captured. -/
+
+/-- the request view of a request line -/
+def viewOfLine (q : ReqView) (us : List PU) : ReqView := respell q (receivedPathL (renderU us))
+
+theorem c08_request_line_view (q : ReqView) (us : List PU) (hwf : ∀ u ∈ us, u.wf) (hb : ∀ u ∈ us, u.byte) :
+    containsEncodedSlash (viewOfLine q us).rawPath = us.any PU.isSlash ∧
+      (viewOfLine q us).path = String.ofList (us.map PU.dec) := by
+  have hwf' := receivedUnit_wf us hwf
+  constructor
+  · simp only [viewOfLine, respell, containsEncodedSlash, String.toList_ofList]
+    rw [receivedPathL_render us hwf, containsEncodedSlashL_render _ hwf', receivedU_slash us hb]
+  · simp only [viewOfLine, respell]
+    rw [receivedPathL_render us hwf, pathUnescapeL_render _ hwf', receivedU_dec us hb]
+    rfl
+
+/-- **`off`, stated for the request line**: whatever octets surround it, an encoded slash in the request line leads to
+the precondition error. -/
+theorem c08_slash_off_request_line (q : ReqView) (us : List PU) (hwf : ∀ u ∈ us, u.wf) (hb : ∀ u ∈ us, u.byte)
+    (hs : us.any PU.isSlash = true) (params : List (String × String)) :
+    execPrelude .off (viewOfLine q us) params = .argument := by
+  unfold execPrelude
+  rw [(c08_request_line_view q us hwf hb).1, hs]
+  rfl
+
+example : receivedPathL "/y/a%2Fb^".toList = "/y/a%2Fb%5E".toList := by decide
+
+
 end Heimdall.Props.C08
